@@ -463,6 +463,10 @@ class Facts:
         out = list(self.by_sig.get(sig, []))
         if not out:
             out = [f for f in self.by_name.get(name, []) if len(f.d['params']) == len(params)]
+        if len(out) > 1:
+            dl = d.get('callee_def') or d.get('ctor_def')
+            same = [f for f in out if f.loc == dl]
+            if same: out = same
         if d.get('virtual') and not d.get('qualified'):
             for f in self.fns:
                 for o in f.d.get('overrides') or []:
